@@ -94,6 +94,36 @@ var registry = []HarnessSpec{
 		Desc:   "StreamDecoder.Decode hands the decoder a private copy of the framed text (never the reusable, pooled read buffer), for every option word",
 		Bounds: "as VerifC17StreamDecode3 (3-byte streams, <= 3 cuts), decoder option word arbitrary"},
 
+	{Prop: "C18", Pkg: mod + "/internal/encoder/prim", PkgName: "prim", Func: "VerifC18EncodeJsonMarshaler", Tier: "quick", Covers: []string{"marshaler-error", "compact", "novalidate", "validate"},
+		Desc:    "prim.EncodeJsonMarshaler: CompactMarshaler / NoValidateJSONMarshaler have exactly their documented effect, for every 64-bit option word (no other bit matters)",
+		Bounds:  "marshaler output in {\"1\", \" 1\", \"x\"} or failure; option word arbitrary",
+		Assumes: []string{"json.Compact and alg.Valid behave on the three sample outputs as stated by the stubs (true of the real functions; replays use the real ones)"}},
+	{Prop: "C18", Pkg: mod + "/internal/encoder/prim", PkgName: "prim", Func: "VerifC18EncodeTextMarshaler", Tier: "quick", Covers: []string{"marshaler-error", "noquote", "quote"},
+		Desc:   "prim.EncodeTextMarshaler: NoQuoteTextMarshaler only decides whether the text is quoted, for every option word",
+		Bounds: "text \"ab\" or failure; option word arbitrary"},
+	{Prop: "C04", Pkg: mod + "/internal/encoder/prim", PkgName: "prim", Func: "VerifC18EncodeJsonMarshaler", Tier: "quick", Covers: []string{"validate"},
+		Desc:   "invalid output of a user Marshaler is rejected unless validation was explicitly disabled (prim.EncodeJsonMarshaler, every option word)",
+		Bounds: "marshaler output in {\"1\", \" 1\", \"x\"} or failure; option word arbitrary"},
+
+	{Prop: "C12", Pkg: mod + "/internal/encoder/alg", PkgName: "alg", Func: "VerifC12F64toa", Tier: "quick", Covers: []string{"end"},
+		Desc:    "alg.F64toa (Go wrapper used by the VM encoder) appends exactly the text of native f64toa (called directly by the JIT), for every float64 bit pattern and buffer geometry",
+		Bounds:  "all 2^64 bit patterns; buffer len 0..2, cap 0..70",
+		Assumes: []string{"native f64toa/f32toa: text is a function of the bit pattern only (UF), at most 24 bytes (modelled: 3), 0 bytes for NaN/Inf, \"0\" for +0 and \"-0\" for -0 (facts re-checked by native replay)"}},
+	{Prop: "C12", Pkg: mod + "/internal/encoder/alg", PkgName: "alg", Func: "VerifC12F32toa", Tier: "quick", Covers: []string{"end"},
+		Desc:   "alg.F32toa appends exactly the text of native f32toa, for every float32 bit pattern",
+		Bounds: "all 2^32 bit patterns; buffer len 0..2, cap 0..70"},
+
+	{Prop: "C20", Pkg: mod + "/internal/encoder/alg", PkgName: "alg", Func: "VerifC20QuoteLoop", Tier: "quick", Covers: []string{"empty", "restart", "end"},
+		Desc:    "alg.Quote restart loop: every input byte consumed exactly once, in order, into contiguous output inside the buffer capacity; quotes added once; prefix preserved; flags passed; terminates",
+		Bounds:  "input 0..3 bytes, buffer len 0..2 / cap 0..70, single and double mode, native may stop anywhere (arbitrary consumed/written counts per call)",
+		Assumes: []string{"native quote/html_escape contract (native/native.h): consumes c<=nb, writes w<=*dn, *dn=w, returns nb or ^c, progress when *dn>=6"}},
+	{Prop: "C20", Pkg: mod + "/internal/encoder/alg", PkgName: "alg", Func: "VerifC20HtmlEscapeLoop", Tier: "quick", Covers: []string{"long-prefix", "end"},
+		Desc:   "alg.HtmlEscape: destination prefix preserved, all of src consumed in order, no write outside dst capacity, no panic, for every dst geometry",
+		Bounds: "src 1..3 bytes; dst len in 0..2 or 66..80, cap up to 90"},
+	{Prop: "C07", Pkg: mod + "/internal/encoder/alg", PkgName: "alg", Func: "VerifC20HtmlEscapeLoop", Tier: "quick", Covers: []string{"end"},
+		Desc:   "encoder.HTMLEscape (alg.HtmlEscape) never panics, whatever prefix/capacity the destination has",
+		Bounds: "src 1..3 bytes; dst len in 0..2 or 66..80, cap up to 90"},
+
 	{Prop: "C03", Pkg: mod + "/internal/encoder/alg", PkgName: "alg", Func: "VerifC03IsValidNumber", Tier: "quick", Covers: []string{"valid", "invalid"},
 		Desc:   "alg.IsValidNumber agrees with the real encoding/json.isValidNumber (executed from stdlib SSA)",
 		Bounds: "all strings of length 0..6"},
